@@ -22,7 +22,8 @@ def handle (c obs : String) : String × Bool × String :=
         let oc := fun (o : ObsRun) => { o with events := o.events.map (fun e => (e.1, String.ofList (e.2.toList.filter (· != 'E')))) }
         let bad := os.filter (fun o => !(obsBalanced (oc o) && o.pre == 0 && o.leak == 0))
         (obs, bad.isEmpty, if bad.isEmpty then "" else "async: unbalanced open/close after quiescence, or goroutines left")
-      | none => (obs, false, "unparsable observation")
+      | none => (obs, false, if obs.startsWith "crash" then "the process crashed: panic on a library goroutine"
+                             else if obs.startsWith "hang" then "the terminal operation did not return" else "unparsable observation")
     else
     let model := agreeOr { result := false, delivered := false, events := fun c => c == 'O' || c == 'o' || c == 'C' } (modelText p rs) obs
     match parseObs obs with
